@@ -110,6 +110,43 @@ func GenIngressWorld(t *rapid.T, admin bool) *World {
 			s.Ports = append(s.Ports, sp)
 		}
 		w.Services = append(w.Services, s)
+		// a second workload behind the same Service that gives the targeted port NAME another number (what a named
+		// targetPort resolves to is a matter of each pod)
+		if target != nil && rapid.IntRange(0, 3).Draw(t, l+"second") == 0 {
+			for i := range w.Workloads {
+				y := &w.Workloads[i]
+				if y == target || y.Ns != target.Ns {
+					continue
+				}
+				if y.Labels == nil {
+					y.Labels = map[string]string{}
+				}
+				for k, v := range s.Selector {
+					y.Labels[k] = v
+				}
+				for _, sp := range s.Ports {
+					if sp.TargetName == "" {
+						continue
+					}
+					num := 0
+					for _, cp := range target.Ports {
+						if cp.Name == sp.TargetName {
+							num = cp.Number
+						}
+					}
+					has := false
+					for _, cp := range y.Ports {
+						if cp.Name == sp.TargetName {
+							has = true
+						}
+					}
+					if !has && num != 0 && len(y.Ports) < 4 {
+						y.Ports = append(y.Ports, CPort{Name: sp.TargetName, Number: num%65535 + 1})
+					}
+				}
+				break
+			}
+		}
 	}
 	svcName := func(l string, nsn string) string {
 		var c []string
